@@ -104,7 +104,8 @@ def run(ctx):
            "scenario_space": {"scripts": len(scripts), "concurrent_schedules": len(concs)},
            "replayed": {"scripts": len(pick_s), "concurrent_schedules": len(pick_c)},
            "counters": res.get("counters", {}), "design_runs": des,
-           "exhaustive": {"scripts": len(pick_s) == len(scripts), "concurrent_schedules": len(pick_c) == len(concs)},
+           "exhaustive": len(pick_s) == len(scripts) and len(pick_c) == len(concs),
+           "exhaustive_parts": {"scripts": len(pick_s) == len(scripts), "concurrent_schedules": len(pick_c) == len(concs)},
            "left_out_as_vacuous": {"scripts_4_steps_on_never_cached_data_packs": len(scripts) - len(pick_s),
                                    "schedules_over_untouched_good_copy": len(concs) - len(pick_c)} if not ctx.thorough() else {},
            "bounds": {"script_steps": 5 if ctx.thorough() else 4, "schedule_steps": 5 if ctx.thorough() else 4}}
